@@ -582,16 +582,27 @@ def _mean1(xs):
     return _e_div(_sum1(xs), len(xs))
 
 
+def _is_inf(x, sign):
+    return (not is_sym(x)) and isinstance(x, (float, np.floating)) and math.isinf(x) and (x > 0) == (sign > 0)
+
+
 def _max1(xs):
-    r = xs[0]
-    for x in xs[1:]:
+    # concrete infinities next to symbols (symbols are finite reals): +inf dominates, -inf never wins unless alone
+    if any(_is_inf(x, +1) for x in xs):
+        return float("inf")
+    ys = [x for x in xs if not _is_inf(x, -1)] or [float("-inf")]
+    r = ys[0]
+    for x in ys[1:]:
         r = _e_max(r, x)
     return r
 
 
 def _min1(xs):
-    r = xs[0]
-    for x in xs[1:]:
+    if any(_is_inf(x, -1) for x in xs):
+        return float("-inf")
+    ys = [x for x in xs if not _is_inf(x, +1)] or [float("inf")]
+    r = ys[0]
+    for x in ys[1:]:
         r = _e_min(r, x)
     return r
 
